@@ -810,5 +810,435 @@ theorem test_mono {m m₂ : TermM} (hz : ¬ ZeroFreq m₂)
   obtain ⟨l, hl, hlf⟩ := hle sz it l₂ hl₂ hf
   exact test_ok_leaf h hl hlf
 
+/-! ### iterations_le_limit -/
+
+/-- the limit function refuses every loop head with `iterations + 1 > L` (true of any model in
+which an `iters L` limit occurs: `test_error_of_iters`) -/
+def IterLimit (I : Inst α) (L : Nat) : Prop := ∀ sz it, L < it + 1 → ∃ k, I.term sz it = .error k
+
+theorem iterLimit_of_leaf {I : Inst α} {m : TermM} (hI : I.term = m.test) {L : Nat}
+    (hl : Leaf (.iters L) m) : IterLimit I L := by
+  intro sz it h
+  rw [hI]
+  exact test_error_of_iters hl sz it h
+
+/-- a passed loop head has `iterations + 1 ≤ L` -/
+theorem IterLimit.of_pass {I : Inst α} {L : Nat} (hL : IterLimit I L) {sz it : Nat}
+    (h : I.term sz it = .ok ()) : it + 1 ≤ L := by
+  by_contra hc
+  obtain ⟨k, hk⟩ := hL sz it (by omega)
+  rw [hk] at h; cases h
+
+/-- **iterations_le_limit** (a), loop form: a result of the loop has `iterations + 1 ≤ L` -/
+theorem runLoop_iters_lt {I : Inst α} {L : Nat} (hL : IterLimit I L) {source : Nat}
+    {target : Option Nat} {sched : List Nat} {s s' : SState α}
+    (hrun : runLoop I source target sched s = .ok s') : s'.iters + 1 ≤ L := by
+  obtain ⟨pre, rest, h, _, _, hterm, hfin⟩ := runLoop_ok_reach sched s s' hrun
+  rw [hfin.fields.2.2.2]
+  exact hL.of_pass hterm
+
+/-- **iterations_le_limit** (a): every result of `run_a_star` has `iterations ≤ L` (and
+`iterations < L` unless it is the `target == source` shortcut with its 0 iterations) -/
+theorem iterations_le_limit {I : Inst α} {L : Nat} (hL : IterLimit I L) {source : Nat}
+    {target : Option Nat} {sched : List Nat} {s : SState α}
+    (hrun : runAStar I source target sched = .ok s) :
+    s.iters ≤ L ∧ (target ≠ some source → s.iters < L) := by
+  rcases runAStar_ok_iff.1 hrun with ⟨ht, rfl⟩ | ⟨ht, f0, _, hloop⟩
+  · exact ⟨Nat.zero_le _, fun h => absurd ht h⟩
+  · have := runLoop_iters_lt hL hloop
+    exact ⟨by omega, fun _ => by omega⟩
+
+/-- in any run — returning or not — every loop head reached after at least one turn has
+`iterations ≤ L`: no more than `L` expansion steps are ever performed -/
+theorem reach_iters_le {I : Inst α} {L : Nat} (hL : IterLimit I L) {source : Nat}
+    {target : Option Nat} {pre : List Nat} {s h : SState α}
+    (hr : Reach I source target pre s h) : pre = [] ∨ h.iters ≤ L := by
+  induction hr with
+  | here s => exact Or.inl rfl
+  | @turn v rest s s1 h ht hr ih =>
+    right
+    rcases ih with rfl | ih
+    · cases hr
+      have := hL.of_pass ht.term_ok
+      have := ht.counters.1
+      omega
+    · exact ih
+
+/-- **iterations_le_limit** (b): the loop never consumes more than `L − iterations` schedule
+entries (one per expansion step), whatever the outcome -/
+theorem runLoop_take {I : Inst α} {L : Nat} (hL : IterLimit I L) {source : Nat}
+    {target : Option Nat} :
+    ∀ (sched : List Nat) (s : SState α),
+      runLoop I source target sched s = runLoop I source target (sched.take (L - s.iters)) s := by
+  intro sched
+  induction sched with
+  | nil => intro s; simp
+  | cons v rest ih =>
+    intro s
+    cases hn : L - s.iters with
+    | zero =>
+      obtain ⟨k, hk⟩ := hL s.solSize s.iters (by omega)
+      rw [runLoop_unfold, runLoop_unfold I source target (List.take 0 (v :: rest))]
+      simp only [hk]
+    | succ n =>
+      rw [List.take_succ_cons, runLoop_unfold, runLoop_unfold I source target (v :: List.take n rest)]
+      split
+      · rfl
+      · split
+        · rfl
+        · simp only
+          split
+          · rfl
+          · split
+            · rfl
+            · split
+              · rfl
+              · split
+                · rfl
+                · rename_i s2 hrel
+                  have hit : s2.iters = s.iters := by
+                    have := (relaxAll_counters _ _ _ hrel).1
+                    simpa [popped] using this
+                  rw [ih]
+                  have : L - (s2.iters + 1) = n := by omega
+                  simp only [this]
+
+/-- (b) for `run_a_star`: at most `L` schedule entries are ever consumed -/
+theorem runAStar_take {I : Inst α} {L : Nat} (hL : IterLimit I L) (source : Nat)
+    (target : Option Nat) (sched : List Nat) :
+    runAStar I source target sched = runAStar I source target (sched.take L) := by
+  rw [runAStar_unfold, runAStar_unfold]
+  split
+  · rfl
+  · split
+    · rfl
+    · rw [runLoop_take hL]
+      rfl
+
+/-! ### size_le_limit_plus_degree -/
+
+/-- the limit function refuses every loop head with `solution.len() > S` -/
+def SizeLimit (I : Inst α) (S : Nat) : Prop := ∀ sz it, S < sz → ∃ k, I.term sz it = .error k
+
+theorem sizeLimit_of_leaf {I : Inst α} {m : TermM} (hI : I.term = m.test) {S : Nat}
+    (hl : Leaf (.size S) m) : SizeLimit I S := by
+  intro sz it h
+  rw [hI]
+  exact test_error_of_size hl sz it h
+
+theorem SizeLimit.of_pass {I : Inst α} {S : Nat} (hS : SizeLimit I S) {sz it : Nat}
+    (h : I.term sz it = .ok ()) : sz ≤ S := by
+  by_contra hc
+  obtain ⟨k, hk⟩ := hS sz it (by omega)
+  rw [hk] at h; cases h
+
+/-- `solution.len()` is non-decreasing along a run -/
+theorem runLoop_solSize_mono {I : Inst α} {source : Nat} {target : Option Nat} {sched : List Nat}
+    {s s' : SState α} (hrun : runLoop I source target sched s = .ok s') :
+    s.solSize ≤ s'.solSize := by
+  obtain ⟨pre, rest, h, _, hr, _, hfin⟩ := runLoop_ok_reach sched s s' hrun
+  rw [hfin.fields.2.2.1]
+  exact hr.counters.2
+
+/-- a returned tree passed the size test itself: its size is at most `S` -/
+theorem runLoop_size_le {I : Inst α} {S : Nat} (hS : SizeLimit I S) {source : Nat}
+    {target : Option Nat} {sched : List Nat} {s s' : SState α}
+    (hrun : runLoop I source target sched s = .ok s') : s'.solSize ≤ S := by
+  obtain ⟨pre, rest, h, _, _, hterm, hfin⟩ := runLoop_ok_reach sched s s' hrun
+  rw [hfin.fields.2.2.1]
+  exact hS.of_pass hterm
+
+/-- in any run — returning or not — the tree at every loop head reached after at least one turn,
+in particular the one at which the limit fires, exceeds `S` by at most the number of incident edges
+of the vertex expanded last -/
+theorem reach_size_le {I : Inst α} {S D : Nat} (hS : SizeLimit I S)
+    (hD : ∀ v, (I.incident v).length ≤ D) {source : Nat} {target : Option Nat} {pre : List Nat}
+    {s h : SState α} (hr : Reach I source target pre s h) : pre = [] ∨ h.solSize ≤ S + D := by
+  induction hr with
+  | here s => exact Or.inl rfl
+  | @turn v rest s s1 h ht hr ih =>
+    right
+    rcases ih with rfl | ih
+    · cases hr
+      have := hS.of_pass ht.term_ok
+      have := ht.counters.2.2
+      have := hD v
+      omega
+    · exact ih
+
+/-- the same inside the `for` loop: after any number of relaxations at a passed loop head the tree
+has at most `S +` (number of edges relaxed so far) entries -/
+theorem relaxAll_size_le {I : Inst α} {S : Nat} (hS : SizeLimit I S) {h : SState α}
+    (hterm : I.term h.solSize h.iters = .ok ()) {hasTarget : Bool} {lastEdge : Option Nat}
+    {st : List α} {v : Nat} {es : List Nat} {s2 : SState α}
+    (hrel : relaxAll I hasTarget lastEdge st es (popped h v) = .ok s2) :
+    s2.solSize ≤ S + es.length := by
+  have := hS.of_pass hterm
+  have := (relaxAll_counters _ _ _ hrel).2.2
+  simp only [popped] at this
+  omega
+
+/-- **size_le_limit_plus_degree**: every result of `run_a_star` has a tree of at most `S + D`
+entries, `D` a bound on the number of incident edges of a vertex (indeed at most `S`: the result is
+produced at a loop head that passed the test; `S + D` is the bound for every tree that exists
+during the search, `reach_size_le`) -/
+theorem size_le_limit_plus_degree {I : Inst α} {S D : Nat} (hS : SizeLimit I S)
+    (_hD : ∀ v, (I.incident v).length ≤ D) {source : Nat} {target : Option Nat} {sched : List Nat}
+    {s : SState α} (hrun : runAStar I source target sched = .ok s) :
+    s.solSize ≤ S + D ∧ s.solSize ≤ S := by
+  rcases runAStar_ok_iff.1 hrun with ⟨_, rfl⟩ | ⟨_, f0, _, hloop⟩
+  · exact ⟨Nat.zero_le _, Nat.zero_le _⟩
+  · have := runLoop_size_le hS hloop
+    exact ⟨by omega, this⟩
+
+/-! ### runtime_stops_at_next_check -/
+
+/-- the limit function refuses every scheduled check (`iterations % freq = 0`) from iteration `i₀`
+on: the time budget is exhausted from `i₀` on -/
+def RuntimeLimit (I : Inst α) (freq i₀ : Nat) : Prop :=
+  ∀ sz it, it % freq = 0 → i₀ ≤ it → ∃ k, I.term sz it = .error k
+
+/-- bridge: a runtime limit with `freq > 0` occurring in the model whose clock `base + per * i`
+exceeds the budget for every `i ≥ i₀` -/
+theorem runtimeLimit_of_leaf {I : Inst α} {m : TermM} (hI : I.term = m.test)
+    {limitNs freq baseNs perNs i₀ : Nat} (hl : Leaf (.runtime limitNs freq baseNs perNs) m)
+    (hex : ∀ i, i₀ ≤ i → limitNs < baseNs + perNs * i) : RuntimeLimit I freq i₀ := by
+  intro sz it hmod hi
+  rw [hI]
+  exact test_error_of_runtime hl sz it (Or.inr hmod) (hex it hi)
+
+/-- for the single runtime limit the refusal is the explicit `Terminated [runtime]` -/
+theorem runtime_test_terminated {limitNs freq baseNs perNs it : Nat} (hf : 0 < freq)
+    (hmod : it % freq = 0) (hex : limitNs < baseNs + perNs * it) (sz : Nat) :
+    (TermM.runtime limitNs freq baseNs perNs).test sz it = .error (.terminated [.runtime]) := by
+  have hf' : freq ≠ 0 := by omega
+  simp [TermM.test, TermM.fires, TermM.explain, hf', hmod, hex]
+
+/-- **runtime_stops_at_next_check**, precise form: a run that returns never went through a
+scheduled check at or after `i₀` -/
+theorem runtime_no_check_passed {I : Inst α} {freq i₀ : Nat} (hR : RuntimeLimit I freq i₀)
+    {source : Nat} {target : Option Nat} {pre rest : List Nat} {s h s' : SState α}
+    (hrun : runLoop I source target (pre ++ rest) s = .ok s')
+    (hr : Reach I source target pre s h) : ¬ (h.iters % freq = 0 ∧ i₀ ≤ h.iters) := by
+  rintro ⟨h1, h2⟩
+  obtain ⟨k, hk⟩ := hR h.solSize h.iters h1 h2
+  rw [ok_passes_every_head hrun hr] at hk
+  cases hk
+
+/-- loop form: started at or before a scheduled check `c ≥ i₀`, a returning run ends before it -/
+theorem runLoop_runtime_lt {I : Inst α} {freq i₀ : Nat} (hR : RuntimeLimit I freq i₀)
+    {source : Nat} {target : Option Nat} {sched : List Nat} {s s' : SState α}
+    (hrun : runLoop I source target sched s = .ok s') (c : Nat) (hc : c % freq = 0) (hi : i₀ ≤ c)
+    (hs : s.iters ≤ c) : s'.iters < c := by
+  by_contra hlt
+  obtain ⟨pre, rest, h, _, _, hit, hterm⟩ :=
+    ok_head_at_every_iteration hrun c hs (by omega)
+  obtain ⟨k, hk⟩ := hR h.solSize c hc hi
+  rw [hterm] at hk; cases hk
+
+/-- the first multiple of `freq` that is `≥ i₀` -/
+def nextCheck (freq i₀ : Nat) : Nat := freq * ((i₀ + freq - 1) / freq)
+
+theorem nextCheck_spec {freq : Nat} (hf : 0 < freq) (i₀ : Nat) :
+    nextCheck freq i₀ % freq = 0 ∧ i₀ ≤ nextCheck freq i₀ ∧ nextCheck freq i₀ < i₀ + freq ∧
+      ∀ c, c % freq = 0 → i₀ ≤ c → nextCheck freq i₀ ≤ c := by
+  unfold nextCheck
+  have h1 := Nat.div_add_mod (i₀ + freq - 1) freq
+  have h2 := Nat.mod_lt (i₀ + freq - 1) hf
+  refine ⟨Nat.mul_mod_right _ _, by omega, by omega, ?_⟩
+  intro c hc hi
+  obtain ⟨q, rfl⟩ := Nat.dvd_of_mod_eq_zero hc
+  apply Nat.mul_le_mul_left
+  rw [Nat.div_le_iff_le_mul_add_pred hf]
+  have : i₀ + freq - 1 ≤ freq * q + (freq - 1) := by omega
+  exact this
+
+/-- **runtime_stops_at_next_check**: with the budget exhausted from iteration `i₀` on, every
+result of `run_a_star` has at most — and, unless it is the `target == source` shortcut, which never
+consults the limits, fewer than — as many iterations as the first scheduled check at or after `i₀`
+(the search is stopped there at the latest) -/
+theorem runtime_stops_at_next_check {I : Inst α} {freq i₀ : Nat} (hf : 0 < freq)
+    (hR : RuntimeLimit I freq i₀) {source : Nat} {target : Option Nat} {sched : List Nat}
+    {s : SState α} (hrun : runAStar I source target sched = .ok s) :
+    s.iters ≤ nextCheck freq i₀ ∧ (target ≠ some source → s.iters < nextCheck freq i₀) := by
+  rcases runAStar_ok_iff.1 hrun with ⟨ht, rfl⟩ | ⟨_, f0, _, hloop⟩
+  · exact ⟨Nat.zero_le _, fun h => absurd ht h⟩
+  · obtain ⟨h1, h2, _⟩ := nextCheck_spec hf i₀
+    have := runLoop_runtime_lt hR hloop _ h1 h2 (Nat.zero_le _)
+    exact ⟨Nat.le_of_lt this, fun _ => this⟩
+
+/-- the statement for the single runtime limit `QueryRuntimeLimit { limit, frequency }` with the
+clock `base + per * iteration` -/
+theorem runtime_stops_at_next_check' {I : Inst α} {limitNs freq baseNs perNs i₀ : Nat}
+    (hI : I.term = (TermM.runtime limitNs freq baseNs perNs).test) (hf : 0 < freq)
+    (hex : ∀ i, i₀ ≤ i → limitNs < baseNs + perNs * i) {source : Nat} {target : Option Nat}
+    {sched : List Nat} {s : SState α} (hrun : runAStar I source target sched = .ok s) :
+    s.iters ≤ nextCheck freq i₀ ∧ (target ≠ some source → s.iters < nextCheck freq i₀) :=
+  runtime_stops_at_next_check hf (runtimeLimit_of_leaf hI (Leaf.runtime _ _ _ _) hex) hrun
+
+/-! ### terminated_is_explicit, search half -/
+
+/-- a limit that fires at a loop head the run reaches *is* the outcome of the run: never a tree,
+never a route, never "no path" -/
+theorem limit_hit_is_error {I : Inst α} {source : Nat} {target : Option Nat} {pre : List Nat}
+    {s h : SState α} (hr : Reach I source target pre s h) {k : ErrKind}
+    (hk : I.term h.solSize h.iters = .error k) (rest : List Nat) :
+    runLoop I source target (pre ++ rest) s = .error k := by
+  rw [hr.runLoop_eq, runLoop_unfold]
+  simp only [hk]
+
+/-- for the concrete model that outcome is `Terminated` naming at least one limit, each of them a
+limit of the model that fires at that loop head — or the frequency-0 panic -/
+theorem limit_hit_is_explicit {I : Inst α} {m : TermM} (hI : I.term = m.test) {source : Nat}
+    {target : Option Nat} {pre : List Nat} {s h : SState α} (hr : Reach I source target pre s h)
+    (hfire : m.fires h.solSize h.iters ≠ some false) (rest : List Nat) :
+    (∃ ks, runLoop I source target (pre ++ rest) s = .error (.terminated ks) ∧ ks ≠ [] ∧
+      ∀ k ∈ ks, ∃ l, Leaf l m ∧ kindOf l = k ∧ l.fires h.solSize h.iters = some true) ∨
+    (runLoop I source target (pre ++ rest) s = .error (.panic "termination-frequency-zero") ∧
+      ZeroFreq m) := by
+  rcases terminated_is_explicit m h.solSize h.iters with h1 | ⟨ks, h1, _, h2, _, h3⟩ | ⟨h1, h2⟩
+  · exact absurd h1.2 hfire
+  · exact Or.inl ⟨ks, limit_hit_is_error hr (by rw [hI]; exact h1) rest, h2, h3⟩
+  · exact Or.inr ⟨limit_hit_is_error hr (by rw [hI]; exact h1) rest, h2⟩
+
+/-- no component of the instance other than the limit function reports `Terminated` (true of every
+configured instance, `config_components_not_terminated`) -/
+structure ComponentsNotTerminated (I : Inst α) : Prop where
+  valid : ∀ e st le ks, I.valid e st le ≠ .error (.terminated ks)
+  trav : ∀ e le st ks, I.trav e le st ≠ .error (.terminated ks)
+  h : ∀ v st ks, I.h v st ≠ .error (.terminated ks)
+
+theorem relax_not_terminated {I : Inst α} (hC : ComponentsNotTerminated I) {hasTarget : Bool}
+    {lastEdge : Option Nat} {curState : List α} {s : SState α} {e : Nat} (ks : List TermKind) :
+    relax I hasTarget lastEdge curState s e ≠ .error (.terminated ks) := by
+  intro h
+  unfold relax at h
+  split at h
+  · rename_i k hk; cases h; exact hC.valid _ _ _ _ hk
+  · cases h
+  · split at h
+    · rename_i k hk; cases h; exact hC.trav _ _ _ _ hk
+    · split at h
+      · cases h
+      · simp only at h
+        split at h
+        · split at h
+          · rename_i k hk
+            cases h
+            cases hasTarget with
+            | true => exact hC.h _ _ _ hk
+            | false => simp at hk
+          · cases h
+        · cases h
+
+theorem relaxAll_not_terminated {I : Inst α} (hC : ComponentsNotTerminated I) {hasTarget : Bool}
+    {lastEdge : Option Nat} {curState : List α} (ks : List TermKind) :
+    ∀ (es : List Nat) (s : SState α),
+      relaxAll I hasTarget lastEdge curState es s ≠ .error (.terminated ks)
+  | [], s => by simp [relaxAll]
+  | e :: es, s => by
+    simp only [relaxAll]
+    split
+    · rename_i k hk
+      intro h; cases h
+      exact relax_not_terminated hC ks hk
+    · exact relaxAll_not_terminated hC ks es _
+
+/-- conversely, a `Terminated` outcome of the loop is the answer of the limit function at a loop
+head the run reached -/
+theorem terminated_from_limit {I : Inst α} (hC : ComponentsNotTerminated I) {source : Nat}
+    {target : Option Nat} {ks : List TermKind} :
+    ∀ (sched : List Nat) (s : SState α),
+      runLoop I source target sched s = .error (.terminated ks) →
+      ∃ pre rest h, sched = pre ++ rest ∧ Reach I source target pre s h ∧
+        I.term h.solSize h.iters = .error (.terminated ks) := by
+  intro sched
+  induction sched with
+  | nil =>
+    intro s hrun
+    rw [runLoop_unfold] at hrun
+    split at hrun
+    · rename_i k hk; cases hrun; exact ⟨[], [], s, rfl, Reach.here s, hk⟩
+    · split at hrun
+      · split at hrun <;> cases hrun
+      · cases hrun
+  | cons v rest ih =>
+    intro s hrun
+    rw [runLoop_unfold] at hrun
+    split at hrun
+    · rename_i k hk; cases hrun; exact ⟨[], v :: rest, s, rfl, Reach.here s, hk⟩
+    · rename_i hterm
+      split at hrun
+      · split at hrun <;> cases hrun
+      · rename_i hemp
+        simp only at hrun
+        split at hrun
+        · cases hrun
+        · rename_i hpop
+          split at hrun
+          · cases hrun
+          · rename_i htgt
+            split at hrun
+            · cases hrun
+            · rename_i lastEdge st hcur
+              split at hrun
+              · rename_i k hk
+                cases hrun
+                exact absurd hk (relaxAll_not_terminated hC ks _ _)
+              · rename_i s2 hrel
+                have ht : Turn I source target s v { s2 with iters := s2.iters + 1 } :=
+                  ⟨hterm, by simpa using hemp, by simpa using hpop, by simpa using htgt,
+                    lastEdge, st, s2, hcur, hrel, rfl⟩
+                obtain ⟨pre, rest', h, hs, hr, hk⟩ := ih _ hrun
+                exact ⟨v :: pre, rest', h, by rw [hs]; rfl, Reach.turn ht hr, hk⟩
+
+/-- every configured instance: the frontier, traversal, access, cost and estimate models report
+their own error kinds, never `Terminated` -/
+theorem config_components_not_terminated (c : Config α) : ComponentsNotTerminated c.inst where
+  valid := by
+    intro e st le ks h
+    simp only [Config.inst] at h
+    split at h
+    · cases h
+    · have : ∀ (fs : List (FrontierM α)), frontierValid fs e le ≠ .error (.terminated ks) := by
+        intro fs
+        induction fs with
+        | nil => simp [frontierValid]
+        | cons m ms ih =>
+          simp only [frontierValid]
+          split
+          · simp
+          · simp
+          · exact ih
+      exact this _ h
+  trav := by
+    intro e le st ks h
+    simp only [Config.inst, edgeTraversal] at h
+    split at h
+    · cases h
+    · split at h
+      · rename_i k hk
+        cases h
+        unfold edgeAccess at hk
+        split at hk
+        · cases hk
+        · split at hk
+          · cases hk
+          · simp only at hk
+            split at hk
+            · cases hk
+            · split at hk <;> cases hk
+      · split at h
+        · cases h
+        · split at h <;> cases h
+  h := by
+    intro v st ks h
+    simp only [Config.inst, estimate] at h
+    split at h
+    · cases h
+    · split at h
+      · cases h
+      · split at h <;> cases h
+
 end SearchLimits
 end Compass
